@@ -113,9 +113,10 @@ def describe(args):
     ps, n = args[0], args[1]
     out = []
     attrs = []
+    if args[6] == 2: attrs.append('packed')
     if args[2]: attrs.append('size(%d)' % s64(args[3]))
     if args[4]: attrs.append('align(%d)' % s64(args[5]))
-    if args[6]: attrs.append('packed')
+    if args[6] and args[6] != 2: attrs.append('packed')
     ext = []; fields = []
     for i in range(min(n, 6)):
         b = NHEAD + STRIDE * i
